@@ -181,6 +181,8 @@ func genC10(t *rapid.T) C10Case {
 		g.add(rt)
 	}
 	c := C10Case{Params: ctlsim.Params{Gateway: true, Shards: rapid.SampledFrom([]int{0, 0, 2}).Draw(t, "shards")}}
+	// a cluster that serves the Gateway API as v1beta1 only (the admission rules are the same)
+	c.Params.GatewayB1 = chanceT(t, "gatewayb1", 35)
 	for _, o := range g.W.List() {
 		c.Objs = append(c.Objs, o.Clone())
 	}
